@@ -170,6 +170,7 @@ UNIT = Unit(
         Fn(**TES_NEW),
         Fn(**TES_EXPANDED),
         Fn(**TES_SET),
+        Decl("src/state.rs", "const", "DEFAULT_TAB_WIDTH"),
         Decl("src/state.rs", "struct", "AtomicPosition"),
         Decl("src/state.rs", "enum", "Status"),
         Decl("src/state.rs", "enum", "ProgressFinish", rewrites=[COW]),
